@@ -5,26 +5,25 @@
    RIO.RxLaws (the laws), RIO.RxTreeInst (tree instance), RIO.Rx{TreeC,PathProofs,MatchersProofs,HostProofs,
    RouterProofs} (mechanical copies of the router proofs for the strengthened shapes).
 
-   RESULT (prefix.rs as repaired in 4f24679: class-aware scanner, range ends included).  [engine_dotstar rx_is_match]
-   holds.  [engine_prefix_law rx_is_match], for ALL token lists the scanner accepts, is FALSE for one remaining reason,
-   a MODEL ARTEFACT: the parser of RIO.Rx accepts any characters as the name of a \p{..} escape (the regex crate
-   rejects them), and the scanner counts the parentheses inside such a name.  The witnesses found on the way were REAL:
-   the first refutation (a parenthesis inside a bracket class) and the second (an open bracket that ends a class range)
-   are the defect of the crate repaired by 4f24679 (corpus/C08/witness_paren_in_class.json, witness_range_end_bracket.json);
-   both are gone (rx_old_witnesses_gone, range_end_bracket_fixed, fixed_cut_in_class).
-   A second artefact of the same kind: RIO.Rx has no set operators inside classes, so it reads "--" as range material
-   where the regex crate (and the scanner) read the difference operator followed by a nested class
-   (rx_reduction_lemma_no_prop_refuted, rx_full_law_no_prop_refuted; checked against the real crate: it agrees with the
-   scanner).  Proved on the way to the full law: the parser reads only what it consumes plus one character of lookahead
-   (rx_parser_context_replacement), and a group that is parsed as one atom inside a pattern parses in isolation
-   (rx_tok_context_isolated); the scanner / parser agreement induction itself is not done (bounded evidence:
-   bounded_agreement).
-   The law holds exactly as stated once every token of the
-   pattern parses in isolation ([tok_parses], executable); this strengthens ONE hypothesis of the theorems:
-   the shape of dynamic patterns, [shape_c re]  ~>  [shape_x re]  (= shape_c + forallb tok_parses). *)
+   RESULT.  Both premises hold for the executable engine, with NO side condition: [rx_dotstar] and [rx_prefix_law]
+   (RIO.RxFull, RIO.RxAgree: in a valid rule regex every prefix.rs token parses in isolation — scanner / parser
+   agreement through groups, escapes, quantifiers and character classes — hence the prefix law), on the scanner of
+   prefix.rs as repaired in 4f24679 and on RIO.Rx made faithful to the regex crate on two points where it was more
+   permissive (names of \p{..} escapes; the set operators -- && ~~ inside classes are rejected instead of being read as
+   range material).  The corollaries C08_find_rx_full, C08_find_r_rx_full, C12_tree_cache_transparent_rx_full,
+   C01_exact_rx_full, C02_refines_rx_full, C11_insertion_order_rx_full, C17_routes_rx_full restate the main theorems for
+   this engine with their ORIGINAL hypotheses and no engine premise.
+   HISTORY, kept because it is how a genuine defect of the crate was found: the first attempt to prove the law was
+   REFUTED by the kernel, twice with witnesses that were real (a parenthesis inside a bracket class; an open bracket
+   ending a class range): prefix.rs cut node prefixes inside character classes and rules were silently missed (fix
+   4f24679, corpus/C08/witness_paren_in_class.json, witness_range_end_bracket.json; [fixed_cut_in_class],
+   [range_end_bracket_fixed], [rx_old_witnesses_gone]); twice with witnesses that were artefacts of the model's parser
+   ([rx_artefact_witnesses_gone]).  The partial law under the executable side condition "every token parses"
+   ([rx_prefix_law_partial], [rx_prefix_law_tokens]), the grammar theorem ([grammar_prefix_law]) and the _rx corollaries
+   over [shape_x] predate the full law and are kept. *)
 Require Import RIO.Base RIO.Prefix RIO.Route RIO.Layer RIO.Tree RIO.TreeProofs RIO.TreeInst RIO.TreeReplace RIO.Matchers RIO.MatcherSpec
                RIO.RouterSpec RIO.RouterHist.
-Require Import RIO.Rx RIO.RxMatch RIO.RxParse RIO.RxToks RIO.RxGi RIO.RxLaws RIO.RxTreeInst RIO.RxGrammar RIO.RxBounded RIO.RxTrunc.
+Require Import RIO.Rx RIO.RxMatch RIO.RxParse RIO.RxToks RIO.RxGi RIO.RxLaws RIO.RxTreeInst RIO.RxGrammar RIO.RxBounded RIO.RxTrunc RIO.RxAgree RIO.RxFull.
 Require RIO.LayerProofs RIO.PathProofs RIO.MatchersProofs RIO.HostProofs RIO.RouterProofs RIO.RxPathProofs RIO.RxMatchersProofs RIO.RxHostProofs RIO.RxRouterProofs.
 Close Scope N_scope.
 
@@ -33,20 +32,18 @@ Theorem rx_dotstar : engine_dotstar rx_is_match.
 Proof. exact rx_engine_dotstar. Qed.
 
 (* ================================================================== T2 *)
-(* full strength: refuted *)
-Theorem rx_prefix_law_refuted : ~ engine_prefix_law rx_is_match.
-Proof. exact rx_engine_prefix_law_refuted. Qed.
-
-(* witness (model artefact, see RIO.RxLaws): the scanner counts the parentheses inside the name of a \P{..} escape,
-   the parser of RIO.Rx takes any characters up to the closing brace as the name.  Tokens: a group with body
-   backslash P open-brace, the literal x, a group with body close-brace; the first token alone is not a regex.
-   The regex crate rejects such a property name, so no valid rule regex has this shape. *)
-Theorem rx_prefix_law_witness_unparsable_prefix :
-  let ts := [TGrp [92; 80; 123]%N; TLit 120%N; TGrp [125]%N] in
-  let s := [122]%N in
-  toks_ok ts /\ ML rx_is_match false (render ts) s = true /\ MN rx_is_match false (render (firstn 1 ts)) s = false
-  /\ rx_valid false (c_caret :: render (firstn 1 ts)) = false.
-Proof. cbv zeta. destruct w1_facts as (H1 & H2 & H3 & H4 & _). repeat split; assumption. Qed.
+(* full strength: PROVED (RIO.RxFull), on the faithful Rx.v (property names and set operators as the regex crate) and the
+   final scanner of prefix.rs (4f24679) *)
+Theorem rx_prefix_law : engine_prefix_law rx_is_match.
+Proof. exact rx_engine_prefix_law. Qed.
+(* its heart: in a valid rule regex every prefix.rs token parses in isolation (scanner / parser agreement) *)
+Theorem rx_valid_tokens : forall ic ts, toks_ok ts -> rx_valid ic (leaf_regex (render ts)) = true -> forallb tok_parses ts = true.
+Proof. intros ic ts H1 H2. apply toks_parse_forallb_iff. exact (rx_valid_tokens_parse ic ts H1 H2). Qed.
+(* the witnesses of the earlier rounds are no longer valid regexes for the model (as for the regex crate) *)
+Theorem rx_artefact_witnesses_gone :
+  rx_valid false (leaf_regex (render [TGrp [92; 80; 123]%N; TLit 120%N; TGrp [125]%N])) = false
+  /\ rx_valid false (leaf_regex (render [TLit 120%N; TGrp [91;40;45;45;45;45;91;93;41;124;40;93;93]%N])) = false.
+Proof. split; vm_compute; reflexivity. Qed.
 
 (* the range-end bracket defect of the previous round (9944bb4 took the second bracket of [!-[] for a nested class) is
    gone with the class_range state of 4f24679: the two valid regexes (x[!-[](]])y) and (x[!-[](]])z) are now ONE group
@@ -233,6 +230,67 @@ Proof.
     [apply RxRouterProofs.rrepr_new|exact Hok].
 Qed.
 
+(* ================================================================== T3 (final): ORIGINAL hypotheses, no engine premise *)
+Theorem C08_find_rx_full : forall (V : Type) ic (ops : list (op V)) s, TreeProofs.hist_ok V shape_c [] ops ->
+  Permutation (find V rx_is_match (tree_of V cp_c take_c clen_c rx_valid ic ops) s)
+              (map (value_of V) (filter (fun e => ML rx_is_match ic (fst e) s) (TreeProofs.live V ops))).
+Proof.
+  intros V. exact (hist_find V cp_c take_c clen_c rx_is_match rx_valid shape_c tpre_c tpre_trans_c cut_l_c cut_r_c cut_l'_c cut_r'_c
+                     tpre_shape_l_c cp_pre_c rx_engine_dotstar rx_engine_prefix_law).
+Qed.
+Theorem C08_find_r_rx_full : forall (V : Type) ic (ops : list (op V)) s, hist_ok_r V shape_c [] ops ->
+  Permutation (find V rx_is_match (tree_of V cp_c take_c clen_c rx_valid ic ops) s)
+              (map (value_of V) (filter (fun e => ML rx_is_match ic (fst e) s) (live_r V ops))).
+Proof. intros V. exact (hist_find_r_c V rx_valid rx_is_match rx_engine_dotstar rx_engine_prefix_law). Qed.
+Theorem C12_tree_cache_transparent_rx_full : forall (V : Type) ic (ops : list (op V)) limit level s,
+  TreeProofs.hist_ok V shape_c [] ops ->
+  let t := tree_of V cp_c take_c clen_c rx_valid ic ops in
+  let t' := fst (tree_cache V rx_valid t limit level) in
+  find V rx_is_match t' s = find V rx_is_match t s /\ (forall re, get V t' re = get V t re)
+  /\ len V t' = len V t /\ entries V t' = entries V t.
+Proof.
+  intros V. exact (hist_cache_transparent V cp_c take_c clen_c rx_is_match rx_valid shape_c tpre_c tpre_trans_c cut_l_c cut_r_c
+                     cut_l'_c cut_r'_c tpre_shape_l_c cp_pre_c rx_engine_dotstar rx_engine_prefix_law).
+Qed.
+Theorem C01_exact_rx_full : forall lower ic_host ic_path always (rs : list route) (q : request),
+  Forall (RouterProofs.ok_route lower) rs -> NoDup (ids rs) ->
+  Permutation (router_match lower rx_is_match rx_valid ic_host ic_path always q
+                 (rbuild lower rx_is_match rx_valid ic_host ic_path always rs))
+              (spec_match lower (rx_is_match false) (RouterProofs.hmatch rx_is_match ic_host)
+                          (RouterProofs.pmatch rx_is_match ic_path) always rs q).
+Proof.
+  intros lower ih ip al.
+  exact (RouterProofs.build_match lower rx_is_match rx_valid ih ip al rx_engine_dotstar rx_engine_prefix_law).
+Qed.
+Theorem C02_refines_rx_full : forall lower ic_host ic_path always (ops : list rop) (q : request),
+  RouterProofs.hist_ok lower [] ops ->
+  Permutation (router_match lower rx_is_match rx_valid ic_host ic_path always q
+                 (rrun lower rx_is_match rx_valid ic_host ic_path always ops (router_new lower rx_is_match rx_valid ic_host ic_path always)))
+              (spec_match lower (rx_is_match false) (RouterProofs.hmatch rx_is_match ic_host)
+                          (RouterProofs.pmatch rx_is_match ic_path) always (RouterHist.live ops) q).
+Proof.
+  intros lower ih ip al.
+  exact (RouterProofs.hist_match lower rx_is_match rx_valid ih ip al rx_engine_dotstar rx_engine_prefix_law).
+Qed.
+Theorem C11_insertion_order_rx_full : forall lower ic_host ic_path always (rs rs' : list route) (q : request),
+  Forall (RouterProofs.ok_route lower) rs -> NoDup (ids rs) -> Permutation rs rs' ->
+  Permutation (router_match lower rx_is_match rx_valid ic_host ic_path always q (rbuild lower rx_is_match rx_valid ic_host ic_path always rs))
+              (router_match lower rx_is_match rx_valid ic_host ic_path always q (rbuild lower rx_is_match rx_valid ic_host ic_path always rs')).
+Proof.
+  intros lower ih ip al.
+  exact (RouterProofs.build_match_any_order lower rx_is_match rx_valid ih ip al rx_engine_dotstar rx_engine_prefix_law).
+Qed.
+Theorem C17_routes_rx_full : forall lower ic_host ic_path always ops q r, RouterProofs.hist_ok lower [] ops ->
+  let R := rrun lower rx_is_match rx_valid ic_host ic_path always ops (router_new lower rx_is_match rx_valid ic_host ic_path always) in
+  (In r (traces_routes (router_trace lower rx_is_match rx_valid ic_host ic_path always q R))
+   <-> In r (router_match lower rx_is_match rx_valid ic_host ic_path always q R)).
+Proof.
+  intros lower ih ip al ops q r Hok R.
+  apply (RouterProofs.rtrace_spec lower rx_is_match rx_valid ih ip al rx_engine_dotstar rx_engine_prefix_law R (RouterHist.live ops) q r).
+  apply (RouterProofs.rrun_refines lower rx_is_match rx_valid ih ip al rx_engine_dotstar rx_engine_prefix_law ops _ []);
+    [apply RouterProofs.rrepr_new|exact Hok].
+Qed.
+
 (* ================================================================== T4: non-vacuity *)
 (* the marker vocabulary of the rule generator, as group bodies *)
 Definition mk_digits : list N := [91;48;45;57;93;43]%N.                           (* [0-9]+ *)
@@ -313,33 +371,8 @@ Example fixed_cut_in_class_find :
   /\ find N rx_is_match (tree_of N cp_c take_c clen_c rx_valid false ops) [47;97;98;47;121]%N = [2%N].
 Proof. split; vm_compute; reflexivity. Qed.
 
-(* the remaining model artefact is NOT a routing defect of the library: it needs a property name the regex crate
-   rejects.  In the model, with the liberal names of RIO.Rx, the shared node is an invalid regex and both leaves are
-   missed: *)
-Example model_artefact_property_name :
-  let p1 := [TGrp [92; 80; 123]%N; TLit 120%N; TGrp [125]%N] in
-  let p2 := [TGrp [92; 80; 123]%N; TLit 121%N; TGrp [125]%N] in
-  let ops := [OInsert N (render p1) [1]%N 1%N; OInsert N (render p2) [2]%N 2%N] in
-  toks_ok p1 /\ toks_ok p2 /\ cp_c (render p1) (render p2) = length (render (firstn 1 p1))
-  /\ ML rx_is_match false (render p1) [122]%N = true
-  /\ find N rx_is_match (tree_of N cp_c take_c clen_c rx_valid false ops) [122]%N = [].
-Proof. cbv zeta. repeat split; vm_compute; reflexivity. Qed.
-
-(* ================================================================== what remains open, and the evidence *)
-(* The reduction lemma / the full law under [no_prop] ALONE are false for RIO.Rx: second artefact of its parser, which has
-   no set operators and no nested classes and reads  x--[  as an item followed by the range from minus to bracket.
-   q = x([(----[])|(]]) : for the scanner AND for regex 1.13.1 (checked: it compiles ^q$ as the literal x and one group
-   holding one class with a nested class) one group; for RIO.Rx an alternation at top level. *)
-Theorem rx_reduction_lemma_no_prop_refuted :
-  ~ (forall ts, toks_ok ts -> no_prop (render ts) = true -> rx_valid false (leaf_regex (render ts)) = true -> forallb tok_parses ts = true).
-Proof. exact reduction_lemma_no_prop_refuted. Qed.
-Theorem rx_full_law_no_prop_refuted :
-  ~ (forall ic ts k s, toks_ok ts -> no_prop (render ts) = true ->
-       ML rx_is_match ic (render ts) s = true -> MN rx_is_match ic (render (firstn k ts)) s = true).
-Proof. exact full_law_no_prop_refuted. Qed.
-
-(* CONJECTURE (see RIO.RxBounded): the full law under [no_prop] AND [no_dd] (no two consecutive minus signs).
-   Bounded evidence: *)
+(* ================================================================== regression evidence and proof ingredients *)
+(* bounded exhaustive checks of the agreement (kept from the rounds where it was a conjecture) *)
 Theorem bounded_agreement : search [40;41;91;93;45;94;92;97;124]%N 6 [] = None
   /\ search [40;41;91;93;45;94;92;97;124;33;100;63;58]%N 5 [] = None
   /\ search_class [91;93;45;94;92;97;40;33]%N 6 [] = None.
@@ -425,8 +458,9 @@ Proof.
 Qed.
 
 Print Assumptions rx_dotstar.
-Print Assumptions rx_prefix_law_refuted.
-Print Assumptions rx_prefix_law_witness_unparsable_prefix.
+Print Assumptions rx_prefix_law.
+Print Assumptions rx_valid_tokens.
+Print Assumptions rx_artefact_witnesses_gone.
 Print Assumptions range_end_bracket_fixed.
 Print Assumptions range_end_bracket_not_a_shape.
 Print Assumptions rx_old_witnesses_gone.
@@ -451,9 +485,13 @@ Print Assumptions C17_routes_rx.
 Print Assumptions marker_vocabulary_parses.
 Print Assumptions fixed_cut_in_class.
 Print Assumptions fixed_cut_in_class_find.
-Print Assumptions model_artefact_property_name.
-Print Assumptions rx_reduction_lemma_no_prop_refuted.
-Print Assumptions rx_full_law_no_prop_refuted.
+Print Assumptions C08_find_rx_full.
+Print Assumptions C08_find_r_rx_full.
+Print Assumptions C12_tree_cache_transparent_rx_full.
+Print Assumptions C01_exact_rx_full.
+Print Assumptions C02_refines_rx_full.
+Print Assumptions C11_insertion_order_rx_full.
+Print Assumptions C17_routes_rx_full.
 Print Assumptions bounded_agreement.
 Print Assumptions rx_parser_context_replacement.
 Print Assumptions rx_tok_context_isolated.
